@@ -100,6 +100,10 @@ type verifC16Run struct {
 	removed   map[string]bool // entities removed by a local op and not re-added / re-created by drift since
 	dirty     map[string]bool // entities changed by local ops since the last clean sync (non-triviality rule only)
 
+	// catalog content at the moment of the last remote/local diff
+	diffSvcs map[string]*structs.NodeService
+	diffChks map[string]*structs.HealthCheck
+
 	// observations for labels / enumeration
 	syncCalls   [][]verifC16RPCRec
 	labels      map[string]bool
@@ -147,6 +151,8 @@ func verifC16NewRun(f verifkit.F, c *verifkit.Case, rec *verifkit.Rec, cfg verif
 	x.cat = verifC16NewCatalog(cfg.Wire)
 	x.cat.plan = plan
 	x.cat.onDiff = func() {
+		// what updateSyncState is looking at right now
+		x.diffSvcs, x.diffChks = x.cat.services(), x.cat.checks()
 		x.refused = map[string]bool{}
 		x.drifted = map[string]bool{}
 		x.tolerated = map[string]bool{}
@@ -606,6 +612,12 @@ func (x *verifC16Run) sync(full, final bool) {
 			etoTags[id] = append([]string{}, s.Tags...)
 		}
 	}
+	refusedBefore := map[string]bool{}
+	if full {
+		for e := range x.refused {
+			refusedBefore[e] = true
+		}
+	}
 	// checks whose removal is pending (Deleted) when the sync starts, with the service the State believes they belong to
 	pending := map[string]string{}
 	x.st.RLock()
@@ -708,6 +720,58 @@ func (x *verifC16Run) sync(full, final bool) {
 					"check %s was removed locally (as a check of service %q); this sync dropped the pending removal without deregistering the check, but the catalog's copy is attached to service %q and is still there (calls %s)",
 					id, pending[id], r.ServiceID, verifC16Calls(calls)) {
 					x.tolerated["chk:"+id] = true
+				}
+			}
+		}
+	}
+
+	// (f) "entries refused by ACLs are retried at every full sync": an entry an earlier sync was refused for is, in a
+	// full sync that got as far as pushing services and checks, either already held by the catalog or carried by an RPC.
+	if full && x.cat.diffDone {
+		aborted := false // SyncChanges returns before services/checks when the node-info registration fails
+		carried := map[string]bool{}
+		for _, call := range calls {
+			if call.Desc == "reg-node" && !call.OK && !verifC16IsACLKind(call.Fault) {
+				aborted = true
+			}
+			if call.Write {
+				for _, e := range call.Ents {
+					carried[e] = true
+				}
+			}
+		}
+		var ents []string
+		for e := range refusedBefore {
+			ents = append(ents, e)
+		}
+		sort.Strings(ents)
+		for _, e := range ents {
+			if aborted || carried[e] || len(e) < 5 {
+				continue
+			}
+			id := e[4:]
+			held := true
+			switch e[:4] {
+			case "svc:":
+				if l := x.st.Service(structs.NewServiceID(id, nil)); l != nil {
+					r := x.diffSvcs[id]
+					held = r != nil && verifC16DiffService(l, r) == ""
+				}
+			case "chk:":
+				if l := x.st.CheckState(structs.NewCheckID(types.CheckID(id), nil)); l != nil {
+					r := x.diffChks[id]
+					if r != nil {
+						// a difference only in fields IsSame does not look at is the other finding, not a missing retry
+						d := verifC16DiffCheck(l.Check, r, true)
+						held = d == "" || verifC16CheckFieldKey("", d) != ""
+					} else {
+						held = false
+					}
+				}
+			}
+			if !held {
+				if x.fail("C16/acl-refused-entry-not-retried-at-full-sync", "%s was refused by ACLs in an earlier sync, the catalog did not hold it (equal) when this full sync compared, and no RPC of this full sync carried it (calls %s)", e, verifC16Calls(calls)) {
+					x.tolerated[e] = true
 				}
 			}
 		}
